@@ -23,6 +23,7 @@ RULE = (
     "radius+1e-9 of the stored centre by an independent separation), centres exactly as given and in order or creation raises, "
     "re-assignment to the reported centres reproduces the stored partition, measurements raise for differing id sets and for centres "
     "farther apart than both patch radii. Non-trivial: >=3 patches whose centres are not in RA order, or an inconsistent pair."
+    ' Extensions: the catalog is also inspected after being reopened with 2-4 workers finishing in a tape-chosen order; one case in 15 has 100-300 patches on a lattice.'
 )
 ASSUMPTIONS = [
     "only the 'must raise' direction is asserted for inconsistent catalogs (distance > both patch radii); acceptance below the radius is not required by the statement",
